@@ -26,6 +26,7 @@ type Fixture struct {
 	Dlg     *delegation.Token // the root delegation (subject → mid), carries the metadata
 	Leaf    *delegation.Token // mid → invoker; when constructed, its policy slice has spare capacity
 	Loader  Loader
+	Deny    Loader // the same links, resolved to twins of the delegations whose policy the invocation's arguments violate
 	InvKey  crypto.PrivKey
 	DlgKey  crypto.PrivKey
 	MidKey  crypto.PrivKey
@@ -120,7 +121,12 @@ func New(argKeys, metaKeys []string, decoded bool) (*Fixture, error) {
 			return nil, err
 		}
 	}
-	f := &Fixture{Inv: inv, Dlg: d, Leaf: leaf, Loader: Loader{c: d, lc: leaf}, InvKey: ik, DlgKey: sk, MidKey: mk, ArgKeys: argKeys, MetaKey: metaKeys}
+	denyPol := policy.MustConstruct(policy.Equal(".an-argument-the-invocation-does-not-have", intNode(1)))
+	dd, err := delegation.Root(sd, md, command.MustParse("/x"), denyPol)
+	if err != nil {
+		return nil, err
+	}
+	f := &Fixture{Inv: inv, Dlg: d, Leaf: leaf, Loader: Loader{c: d, lc: leaf}, Deny: Loader{c: dd, lc: leaf}, InvKey: ik, DlgKey: sk, MidKey: mk, ArgKeys: argKeys, MetaKey: metaKeys}
 	f.values0 = f.Values()
 	return f, nil
 }
@@ -339,6 +345,18 @@ func (f *Fixture) Run(op string) ([]string, string) {
 			return nil, "ExecutionAllowedWithArgsHook(clone): " + err.Error()
 		}
 		return argKeysSorted(f.Inv.Arguments()), ""
+	case "executionAllowedDenied":
+		// the plain entry point, refused by the POLICY of the chain: the loader hands out, for the same links, twins of the
+		// two delegations whose policy demands an argument the invocation does not have
+		if f.Deny == nil {
+			return nil, "fixture has no denying loader"
+		}
+		if err := f.Inv.ExecutionAllowed(f.Deny); err == nil {
+			return nil, "ExecutionAllowed succeeded although a delegation's policy demands an absent argument"
+		} else if !errors.Is(err, invocation.ErrPolicyNotSatisfied) {
+			return nil, "ExecutionAllowed with a denying policy: " + err.Error()
+		}
+		return argKeysSorted(f.Inv.Arguments()), ""
 	case "executionAllowedMissing":
 		// the same token checked with a loader that has none of its proofs: must fail whatever happened before
 		if err := f.Inv.ExecutionAllowed(Loader{}); err == nil {
@@ -379,7 +397,7 @@ func (f *Fixture) Run(op string) ([]string, string) {
 }
 
 var Ops = []string{"argsToIPLD", "argsString", "metaString", "argsIter", "metaIter", "executionAllowed", "seal", "executionAllowedHook", "executionAllowedMissing",
-	"executionAllowedHookDenied", "executionAllowedHookClone"}
+	"executionAllowedHookDenied", "executionAllowedHookClone", "executionAllowedDenied"}
 
 // Concurrent runs every operation from `workers` goroutines on the SAME tokens and reports the first result
 // that differs from the one obtained when the operation ran alone, or a change of the observable key order.
